@@ -25,6 +25,17 @@
      header_fields_pin        HeaderLine.read_header_line's use of the groups = the m.groupdict() loop of read_header_line
      json_value_pin, json_sample_pin   Export.json_of_value / json_of_sample = las._json_value + json's own dispatch
      section_contains_pin, section_getitem_pin   Items.contains / getitem (str key) = SectionItems.__contains__ / __getitem__
+     read_header_line_pin     HeaderLine.read_header_line          = the whole of reader.read_header_line (pattern=None)
+     steering_pin             Read.update_steering                 = the steering block of LASFile.read
+     bind_pin, n_columns_pin  Read.null_columns / bind_columns / data_for_curves, read_one_data's column count
+                                                                    = the column-binding block / reader_n_columns of LASFile.read
+     lnf_pin, col_fmt_pin, left_spacing_pin, field_text_pin, data_rows_pin
+                              Writer.field_width / col_fmt / field_text / row_text (+ wrap) = the data section of writer.write
+     assign_pin, append_pin, insert_pin, set_item_pin, delitem_pin
+                              Items.assign_suffixes / append / insert / set_item / delitem (str key)
+                                                                    = SectionItems' mutators as list-to-list functions
+                              (FuncsPinSteering, FuncsPinBind, FuncsPinWriteData; FuncsPinMutators imports Items: not
+                               re-exported here, like FuncsPinSection)
 
    One file per pinned function or group (FuncsPinConfigure, FuncsPinSectionType, FuncsPinRoute,
    FuncsPinSectionParse, FuncsPinItems, FuncsPinStandardize, FuncsPinWriter, FuncsPinNum, FuncsPinParser, FuncsPinParserInit,
@@ -36,6 +47,6 @@
    pyo_item, ... : Python's find / slicing / indexing rules over code-point lists). *)
 Require Export FuncsPinsLib FuncsPinConfigure FuncsPinSectionType FuncsPinSectionParse FuncsPinItems
   FuncsPinStandardize FuncsPinRoute FuncsPinWriter FuncsPinNum FuncsPinParser FuncsPinParserInit FuncsPinHeaderLine
-  FuncsPinJson.
+  FuncsPinJson FuncsPinSteering FuncsPinBind FuncsPinWriteData.
 (* FuncsPinSection is not re-exported here: Model/Items.v and Funcs.v both have fields named it_unit / it_value /
    it_descr; import it on its own. *)
